@@ -17,10 +17,12 @@ import json
 import operator
 import random
 from collections import OrderedDict
+from decimal import Decimal
 from fractions import Fraction
 
 import glom
 from glom import T, Fold, Sum, Flatten, Merge, flatten, merge
+from glom.reduction import Count
 
 import codec
 import vlib
@@ -74,9 +76,9 @@ def _keepfirst(d, v):
 
 
 INITS = {'int': int, 'float': float, 'half': _half, 'five': _five, 'str': str, 'list': list, 'tuple': tuple,
-         'dict': dict, 'odict': OrderedDict, 'seeded': _seeded, 'strx': _strx, 'tup0': _tup0}
+         'dict': dict, 'odict': OrderedDict, 'seeded': _seeded, 'strx': _strx, 'tup0': _tup0, 'dec': Decimal}
 OPS = {'iadd': operator.iadd, 'add': operator.add, 'digits': _digits, 'right': _right,
-       'update': None, 'keepfirst': _keepfirst, 'extend': 'extend'}
+       'update': None, 'keepfirst': _keepfirst, 'extend': 'extend', 'count': None}
 
 
 class RealReduction:
@@ -88,7 +90,7 @@ class RealReduction:
         init = sp['init']
         if init == 'lazy':
             self.init = 'lazy'
-        elif counting:
+        elif counting and sp['form'] != 'Count':
             self.counter = self.init = Counting(INITS[init])
         else:
             self.init = INITS[init]
@@ -103,6 +105,8 @@ class RealReduction:
             self.spec = Flatten() if (sub is T and init == 'list' and not counting) else Flatten(sub, self.init)
         elif form == 'Merge':
             self.spec = Merge(sub, self.init, op)
+        elif form == 'Count':
+            self.spec = Count() if sub is T else (sub, Count())
         elif form == 'flatten':
             self.call = lambda t: flatten(t, spec=sub, init=self.init, levels=sp['levels'])
         elif form == 'merge':
@@ -129,6 +133,8 @@ def deep(o, depth=0):
         return {'k': 'bool', 'b': o}
     if isinstance(o, int):
         return {'k': 'int', 'i': o} if abs(o) < 2 ** 31 else {'k': 'opaque', 's': 'bigint'}
+    if isinstance(o, Decimal):
+        return {'k': 'dec', 'i': int(o)} if o == int(o) and abs(o) < 2 ** 31 else {'k': 'opaque', 's': repr(o)}
     if isinstance(o, (float, Fraction)):
         fr = Fraction(o)
         if fr.denominator in (1, 2):
@@ -192,7 +198,8 @@ def run_case(heap0, root, wrap, sp, counting):
             o.update(ok=False, exc=codec.exc_class_name(exc))
             res = None
         if counting:
-            o['inits'] = rr.counter.calls if rr.counter is not None else 0
+            # lazy: nothing to call; Count(): its init is the builtin int, which cannot be counted (-1)
+            o['inits'] = rr.counter.calls if rr.counter is not None else (0 if sp['init'] == 'lazy' else -1)
         if sp['form'] == 'flatten' and sp['levels'] == 0 and o['ok'] and res is not rootobj:
             detail = 'flatten(levels=0) did not return the target itself'
         obs.append(o)
@@ -218,7 +225,7 @@ def compare(pred, obs, counting):
                 e + 1, 'ok' if p['ok'] else p['exc'], 'ok' if o['ok'] else o['exc'])
         if p['ok'] and p['v'] != o['v']:
             return 'evaluation %d: value predicted %s observed %s' % (e + 1, json.dumps(p['v']), json.dumps(o['v']))
-        if counting and o['inits'] < p['inits']:
+        if counting and 0 <= o['inits'] < p['inits']:
             return 'evaluation %d: init() called %d time(s) during the evaluation, the law requires %d' % (e + 1, o['inits'], p['inits'])
     return None
 
@@ -324,13 +331,13 @@ def rand_row(rng):
         cells.append({'cls': 'dict', 'items': [[{'k': 'str', 's': 'k'}, root]]})
         root = {'k': 'ref', 'a': len(cells)}
         sub = 'k'
-    form = rng.choice(['Fold', 'Fold', 'Sum', 'Flatten', 'Flatten', 'Merge', 'flatten', 'flatten', 'merge'])
+    form = rng.choice(['Fold', 'Fold', 'Sum', 'Flatten', 'Flatten', 'Merge', 'flatten', 'flatten', 'merge', 'Count'])
     sp = dict(form=form, sub=sub, init='int', op='iadd', levels=1, lazy=False)
     if form == 'Fold':
         sp['init'] = rng.choice(list(INITS))
-        sp['op'] = rng.choice(['iadd', 'iadd', 'add', 'right'] + (['digits'] if sp['init'] in ('int', 'float', 'half', 'five') else []))
+        sp['op'] = rng.choice(['iadd', 'iadd', 'add', 'right'] + (['digits'] if sp['init'] in ('int', 'float', 'half', 'five', 'dec') else []))
     elif form == 'Sum':
-        sp['init'] = rng.choice(['int', 'float', 'half', 'five', 'strx'])
+        sp['init'] = rng.choice(['int', 'float', 'half', 'five', 'strx', 'dec'])
     elif form == 'Flatten':
         sp['init'] = rng.choice(['list', 'list', 'tuple', 'int', 'str', 'seeded', 'strx', 'tup0', 'lazy'])
     elif form == 'Merge':
@@ -340,6 +347,8 @@ def rand_row(rng):
         sp['levels'] = rng.choice([1, 1, 2, 2, 3, 4] + ([0] if sub == 'T' else []))
         if sp['levels'] == 0 and sp['init'] == 'lazy':
             sp['init'] = 'list'
+    elif form == 'Count':
+        sp['op'] = 'count'
     else:
         sp['init'], sp['op'] = rng.choice([('dict', 'update'), ('odict', 'update')])
     sp['lazy'] = sp['init'] == 'lazy'
@@ -391,7 +400,7 @@ def tla_set(xs):
 
 
 FAMILIES = ['nums', 'seqs', 'deep', 'dicts', 'bad', 'keys']
-FORMS = ['Fold', 'Sum', 'Flatten', 'Merge', 'flatten', 'merge']
+FORMS = ['Fold', 'Sum', 'Flatten', 'Merge', 'flatten', 'merge', 'Count']
 
 
 def consts(**kw):
@@ -415,13 +424,14 @@ UNIVERSES = {
     ],
 }
 MUT_UNIVERSE = consts(MaxLen=2, Families=tla_set(['seqs', 'dicts', 'deep']), Outers=tla_set(['list']),
-                      Forms=tla_set(['Fold', 'Flatten', 'Merge', 'flatten']), Levels='{1, 2}')
+                      Forms=tla_set(['Fold', 'Flatten', 'Merge', 'flatten', 'Count']), Levels='{1, 2}')
 # spec mutant -> (cfg whose invariants must be violated, the law expected to fail first)
 MUTANTS = [('init_once', 'MC_C15_mut_indep', 'InvIndependent'),
            ('first_as_init', 'MC_C15_mut_frame', None),
            ('merge_into_first', 'MC_C15_mut_frame', None),
            ('lazy_extra_level', 'MC_C15_mut_lazy', 'InvLazyEager'),
-           ('init_once', 'MC_C15', None)]
+           ('init_once', 'MC_C15', None),
+           ('count_bad_init', 'MC_C15', None)]
 
 
 def main(tier, seed):
@@ -462,7 +472,7 @@ def main(tier, seed):
     check.extra['universes'] = {label: cs for label, cs in UNIVERSES[tier]}
     check.assumptions += [
         'numbers are ints and exact multiples of 1/2 (float / Fraction); strings are "", "uv" and one-character strings',
-        'ops: operator.iadd, operator.add, lambda a, b: a * 10 + b, lambda a, b: b; Merge ops: default "update", '
+        'Count() outside Group mode and decimal.Decimal as init are included; ops: operator.iadd, operator.add, lambda a, b: a * 10 + b, lambda a, b: b; Merge ops: default "update", '
         '"extend" (by name, on a list), a first-writer-wins callable; custom inits (non-empty starts): lambda: 5, lambda: [0], '
         "lambda: 'x', lambda: (0,), lambda: Fraction(1, 2)",
         'flatten(levels=0) only without a spec (documented domain is positive levels; with spec=... the code returns '
